@@ -44,12 +44,23 @@ class LogCursor(sqlite3.Cursor):
         return sqlite3.Cursor.executescript(self, sql)
 
 
+CONNECT_FAULT = {'armed': 0, 'fired': 0}     # per process: the next N connection attempts fail (fault injection)
+
+
+class InjectedFault(Exception):
+    """raised by the fake drivers of the pool part for an injected connection failure"""
+
+
 class LogConnection(sqlite3.Connection):
     """sqlite3.Connection that records the pid that created it and the pid of every call that reaches SQLite.
     commit()/rollback() only reach SQLite when a transaction is open (python's sqlite3 skips them otherwise):
     `real` says whether the call issued a COMMIT / ROLLBACK statement."""
 
     def __init__(self, *args, **kwargs):
+        if CONNECT_FAULT['armed'] > 0:           # the connection attempt fails before anything is opened
+            CONNECT_FAULT['armed'] -= 1
+            CONNECT_FAULT['fired'] += 1
+            raise sqlite3.OperationalError('injected: unable to open database file')
         _serial[0] += 1
         self._c36_serial = '%d.%d' % (os.getpid(), _serial[0])
         self._c36_creator = os.getpid()
@@ -264,6 +275,8 @@ class SqliteWorld(object):
             rec['ok'] = False
             rec['exc'] = _exc_info(e)
         rec['end'] = len(EVENTS)
+        if name == 'fail_connect':
+            rec['fired'] = getattr(self, 'last_fault_fired', 0)
         return rec
 
     def _names(self):
@@ -286,6 +299,40 @@ class SqliteWorld(object):
             rows = con.execute('select name from e order by name').fetchall()
             return {'creator': getattr(con, '_c36_creator', None), 'pid': os.getpid(),
                     'names': sorted(r[0] for r in rows)}
+
+    def do_fail_connect(self, label):
+        """a read session during which the NEXT attempt to open a connection fails once (if no connection has to be
+        opened -- pooled connection of this process, cached result -- nothing fails and this is a plain read)"""
+        CONNECT_FAULT['armed'], CONNECT_FAULT['fired'] = 1, 0
+        try:
+            with self.orm.db_session:
+                return self._names()
+        finally:
+            self.last_fault_fired = CONNECT_FAULT['fired']
+            CONNECT_FAULT['armed'] = 0
+
+    # a @db_session-decorated generator: its SessionCache lives in the wrapper between two steps
+    def do_gen_start(self, label):
+        world = self
+
+        @self.orm.db_session
+        def gen():
+            cmd = None
+            while True:
+                names = world._names()
+                if cmd is not None:
+                    world.E(name=cmd)
+                    world.orm.flush()
+                world.orm.commit()        # the wrapper refuses to suspend with an open transaction
+                cmd = yield names
+        self.gen = gen()
+        return next(self.gen)
+
+    def do_gen_next(self, label):
+        return next(self.gen)
+
+    def do_gen_write(self, label):
+        return self.gen.send(label)
 
     def do_disconnect(self, label):
         self.db.disconnect()
@@ -358,7 +405,7 @@ def run_ops(world, who, ops, labels, records):
             records.append({'who': who, 'op': 'fork', 'sub': rep, 'sub_who': gwho, 'sub_pid': rep.get('pid', pid)})
         else:
             label = None
-            if op in ('write', 'write_flush', 'write_noflush'):
+            if op in ('write', 'write_flush', 'write_noflush', 'gen_write'):
                 label = '%s%d' % (who.lower(), next(labels))
             records.append(world.op(who, op, label))
 
@@ -375,6 +422,7 @@ class _Labels(object):
 
 
 PARENT_STATES = ('disconnected', 'idle', 'open_read', 'open_write', 'open_dirty', 'after_commit')
+GEN_STATE = 'gen_suspended'     # a @db_session generator of the parent is suspended (after a read) at the fork point
 
 
 _WORLDS = {}
@@ -407,6 +455,7 @@ def get_world(workdir):
 def sqlite_history(case, world):
     """Runs in P.  Returns the observation dict."""
     del EVENTS[:]
+    CONNECT_FAULT['armed'] = CONNECT_FAULT['fired'] = 0
     with world.orm.db_session:
         world.db.execute('delete from e')
     return _sqlite_history(case, world)
@@ -441,6 +490,8 @@ def _sqlite_history(case, world):
         setup.append(world.op('P', 'open'))
         setup.append(world.op('P', 'write_flush', 'pc'))
         setup.append(world.op('P', 'commit'))
+    elif state == 'gen_suspended':
+        setup.append(world.op('P', 'gen_start'))
     elif state == 'thread_open_write':
         # ANOTHER thread of the parent holds an open write transaction (and pony's SQLite transaction lock) at the fork
         ready, done = threading.Event(), threading.Event()
@@ -500,7 +551,7 @@ def _sqlite_history(case, world):
                     name = op
             else:
                 name = op
-            label = ('p%d' % next(labels)) if op == 'write' else None
+            label = ('p%d' % next(labels)) if op in ('write', 'gen_write') else None
             rec = world.op('P', name, label)
             rec['in_session'] = world.session is not None or name == 'end_session'
             recs.append(rec)
@@ -516,6 +567,11 @@ def _sqlite_history(case, world):
 
     # ---- epilogue: the parent finishes its open session (commit) and reads everything in a new session -----
     fin = []
+    if state == 'gen_suspended':
+        try:
+            world.gen.close()
+        except Exception:
+            pass
     if state == 'thread_open_write':
         done.set()
         thread.join(PARENT_TIMEOUT)
@@ -614,6 +670,13 @@ class RecCursor(object):
         return []
 
 
+def _maybe_fail(where):
+    if CONNECT_FAULT['armed'] > 0:
+        CONNECT_FAULT['armed'] -= 1
+        CONNECT_FAULT['fired'] += 1
+        raise InjectedFault('injected: %s failed' % where)
+
+
 class FakeDbapi(object):
     """fake DB-API module handed to Pool(dbapi_module, *args, **kwargs)"""
     def __init__(self):
@@ -621,6 +684,7 @@ class FakeDbapi(object):
 
     def connect(self, *args, **kwargs):
         self.calls.append((args, sorted(kwargs)))
+        _maybe_fail('dbapi.connect')
         return RecConn()
 
 
@@ -629,10 +693,12 @@ class RecSessionPool(RecBase):
     kind = 'spool'
 
     def __init__(self, **kwargs):
+        _maybe_fail('cx_Oracle.SessionPool')
         RecBase.__init__(self)
         self.kwargs = kwargs
 
     def acquire(self):
+        _maybe_fail('SessionPool.acquire')
         _pev(self, 'acquire')
         return RecConn(owner_pool=self.ident)
 
@@ -673,6 +739,7 @@ def pool_history(case):
     The harness only releases/drops a connection that connect() returned IN THE SAME PROCESS
     (held is cleared right after each fork, like a child that abandons the inherited session state)."""
     del POOL_EVENTS[:]
+    CONNECT_FAULT['armed'] = CONNECT_FAULT['fired'] = 0
     pool = make_pool(case['pool'])
     held = {}
 
@@ -693,10 +760,13 @@ def pool_history(case):
                     pid, fd = fork_and_report(body, CHILD_TIMEOUT)
                     rec['sub'] = collect(pid, fd, CHILD_TIMEOUT + 3)
                     rec['sub_who'] = gwho
+                elif op == 'fail_next':
+                    CONNECT_FAULT['armed'], CONNECT_FAULT['fired'] = 1, 0    # the next driver-level connect of this process fails
                 elif op == 'connect':
                     if 'con' in held:
                         rec['skipped'] = 'already holding a connection'
                     else:
+                        rec['armed'] = CONNECT_FAULT['armed']
                         con, is_new = pool.connect()
                         held['con'] = con
                         rec['result'] = {'con': con.ident, 'creator': con.creator, 'is_new': bool(is_new),
@@ -730,6 +800,7 @@ def pool_history(case):
             except Exception as e:
                 rec['ok'] = False
                 rec['exc'] = _exc_info(e)
+                rec['injected'] = isinstance(e, InjectedFault)
                 rec['tb'] = traceback.format_exc()[-600:]
             out.append(rec)
 
